@@ -154,6 +154,19 @@ CHECKS.update({
     ),
 })
 
+CHECKS.update({
+    'C12': dict(
+        script='checks/c12.py', category='model_checking', design='DESIGN.md §4 C12', engine='pysym+llsym',
+        text=('Encoder: the real ArduinoGenerator item functions (_generate_era_item, _generate_policy_item and the helpers '
+              'they call) executed by pysym on symbolic field values (STDOFF, SAVE, AT/UNTIL with suffix, years, day fields), '
+              'their emitted C++ constant expressions mapped back to integer terms; decoder: the real broker accessors on the IR '
+              'over symbolic table bytes (llsym). Per encoder path and field one SMT query substitutes the encoded bytes into the '
+              'decoder terms and asks for an admissible value that decodes differently or does not fit the C++ field type; both '
+              'scopes, all suffixes, single and indexed letters.'),
+        technique='symbolic execution of the Python generator (pysym, z3 Int) composed with symbolic execution of the C++ brokers (llsym, bit-vectors) in one SMT query per field',
+    ),
+})
+
 NOT_APPLICABLE = {
     'C19': ('the generators are sampling loops around pytz/dateutil tzinfo objects backed by binary tz files and '
             'C-implemented datetime; neither CrossHair nor our symbolic executor can make those symbolic, and a '
